@@ -58,10 +58,21 @@ def induction_obligations(lemma, spec_files, marker, prop, extra_vars=(), fixed_
     text = texts[-1]
     i, j = _block(text, marker)
     block = text[i:j]
-    inner = block[len('(define-funs-rec'):-1].strip()
-    sigs_s, bodies_s = _sexps(inner)
-    sigs = [_sig(x) for x in _sexps(sigs_s[1:-1])]
-    bodies = _sexps(bodies_s[1:-1])
+    if block.startswith('(define-fun-rec'):
+        parts = _sexps(block[len('(define-fun-rec'):-1].strip())
+        name = block[len('(define-fun-rec'):].split()[0]
+        rest = block[block.index(name) + len(name):-1].strip()
+        ps = _sexps(rest)[0]
+        after = rest[len(ps):].strip()
+        ret = after.split()[0] if not after.startswith('(') else _sexps(after)[0]
+        body = after[len(ret):].strip()
+        sigs = [(name, ps[1:-1], ret)]
+        bodies = [body]
+    else:
+        inner = block[len('(define-funs-rec'):-1].strip()
+        sigs_s, bodies_s = _sexps(inner)
+        sigs = [_sig(x) for x in _sexps(sigs_s[1:-1])]
+        bodies = _sexps(bodies_s[1:-1])
     assert len(sigs) == len(bodies)
     funs = [n for n, _, _ in sigs]
     pre = '(set-logic ALL)\n' + '\n'.join(texts[:-1]) + '\n' + text[:i]
@@ -135,6 +146,37 @@ def rn_fresh_obligations():
                                  fixed_vars=[('bb', 'Int')])
 
 
+def cnt_obligations():
+    """L-CNT: cnt >= 0 and a position j < k that holds the plain variable n is counted (cnt >= 1)"""
+    def prop(name, call, P):
+        return ('(and (>= %s 0) (=> (and (<= 0 jj) (< jj %s) (= (tanth %s jj) (TAVar %s))) (>= %s 1)))'
+                % (call, P['k'], P['a'], P['n'], call))
+    return induction_obligations('L-CNT', ['control.smt2'], '(define-fun-rec cnt ', prop, fixed_vars=[('jj', 'Int')])
+
+
+def literal_obligations():
+    """L-LITERAL (C16): the constructor calls emitted for a source term build the term the literal denotes:
+    denote(cexpr(t), env) = tsem(t, env), by induction over cexpr/cexprl"""
+    def prop(name, call, P):
+        if name == 'cexpr':
+            return '(= (denote %s envv) (tsem %s envv))' % (call, P['t'])
+        return '(= (denotel %s envv) (tseml %s envv))' % (call, P['l'])
+    obl = induction_obligations('L-LITERAL', ['terms.smt2', 'literals.smt2', 'control.smt2'], '(define-funs-rec ((cexpr ', prop,
+                                fixed_vars=[('envv', '(Array String Term)')])
+    # the definitions of literals.smt2 refer to TA/CE, which control.smt2 declares before cexpr: reorder the prelude text
+    out = []
+    for n, t in obl:
+        lit = open(os.path.join(os.path.dirname(SPEC), 'literals.smt2')).read()
+        t = t.replace(lit, '')
+        i = t.index('(declare-fun cexpr_')
+        out.append((n, t[:i] + lit + '\n' + t[i:]))
+    return out
+
+
+def prove_clause_lemmas(timeout=20):
+    return smt.run_many(cnt_obligations() + literal_obligations(), timeout=timeout)
+
+
 def prove_frame(timeout=20):
     return smt.run_many(frame_obligations() + len_nonneg_obligation(), timeout=timeout)
 
@@ -144,7 +186,7 @@ def prove_heap_lemmas(timeout=20):
 
 
 if __name__ == '__main__':
-    for r in prove_frame() + prove_heap_lemmas():
+    for r in prove_frame() + prove_heap_lemmas() + prove_clause_lemmas():
         print(r['name'], r['verdict'], r['solver'], r['seconds'])
 
 
